@@ -80,11 +80,16 @@ def main():
                                   % (hits, bad, atext[-3000:]))
             violations.append((p, " no-failing-input-found"))
         if tier == "thorough" and not violations:
-            ok, out = core.leanchecker("Confuse.Props." + prop)
-            notes.append("leanchecker Confuse.Props.%s: %s" % (prop, "ok" if ok else "FAILED"))
-            if not ok:
-                p = core.write_replay(prop, "proof", "# leanchecker rejected Confuse.Props.%s\n%s\n" % (prop, out))
-                violations.append((p, " no-failing-input-found"))
+            # every module of the property's theorems (Props/Cxx.lean and Props/Cxx<letter>.lean), re-checked independently
+            pdir = os.path.join(core.LEAN, "Confuse", "Props")
+            mods = sorted(f[:-5] for f in os.listdir(pdir) if f.endswith(".lean") and f.startswith(prop) and f[len(prop):-5].isalpha() or f == prop + ".lean")
+            for mname in mods:
+                ok, out = core.leanchecker("Confuse.Props." + mname)
+                notes.append("leanchecker Confuse.Props.%s: %s" % (mname, "ok" if ok else "FAILED"))
+                if not ok:
+                    p = core.write_replay(prop, "proof", "# leanchecker rejected Confuse.Props.%s\n%s\n" % (mname, out))
+                    violations.append((p, " no-failing-input-found"))
+                    break
 
     # ---- 2..4 tie + oracles
     rng = random.Random(seed * 1000003 + sum(map(ord, prop)))
